@@ -40,6 +40,9 @@ def catalogue() -> list[dict]:
     for mp in sorted((VERIF / "seeded").glob("*/meta.json")):
         meta = json.loads(mp.read_text())
         out.append({"id": f"seed-{meta['id']}", "property": meta["property"], "expect": "fire", "patch": f"seeded/{meta['id']}/patch.diff", "source": "seeded"})
+        # the same change in a tree whose every local was renamed afterwards: the changed function is no longer
+        # alpha-equivalent to the reference, only the best-effort rename (alpha.best_effort_rename) applies
+        out.append({"id": f"seed-{meta['id']}+renamed", "property": meta["property"], "expect": "fire", "patch": f"seeded/{meta['id']}/patch.diff", "then": "rename-locals", "source": "seeded"})
     return out
 
 
@@ -81,6 +84,37 @@ def apply_edits(root: Path, m: dict) -> str | None:
     return None
 
 
+def _tree_differs(src: Path, m: dict) -> bool:
+    """does any file the variant touches differ from the tree the catalogue was written against
+    (per-module source hashes in spec/alpha_reference.json)?"""
+    import hashlib
+
+    try:
+        ref = json.loads((VERIF / "spec" / "alpha_reference.json").read_text())
+    except Exception:
+        return False
+    files = set()
+    if m.get("patch"):
+        for line in (VERIF / m["patch"]).read_text().splitlines():
+            if line.startswith("+++ b/"):
+                files.add(line[6:].strip())
+    else:
+        for e in m.get("edits") or [m]:
+            if e.get("file"):
+                files.add(e["file"])
+    for f in files:
+        p = src / f
+        if not f.endswith(".py") or not p.exists():
+            continue
+        name = ".".join(Path(f).with_suffix("").parts)
+        if name.endswith(".__init__"):
+            name = name[: -len(".__init__")]
+        want = ref.get(name, {}).get("__sha__")
+        if want is not None and hashlib.sha256(p.read_text(encoding="utf-8").encode()).hexdigest() != want:
+            return True
+    return False
+
+
 def run_variant(m: dict) -> dict:
     src = Path(os.environ.get("VERIF_REPO", "/repo"))
     base = os.environ.get("TMPDIR") or "/var/tmp"
@@ -99,6 +133,10 @@ def run_variant(m: dict) -> dict:
             err = None
             if pr.returncode != 0 and "pynetdicom/" in (pr.stdout + pr.stderr) and "FAILED" in (pr.stdout + pr.stderr):
                 err = f"patch did not apply: {(pr.stdout + pr.stderr)[-200:]}"
+            if err is None and m.get("then"):
+                tool = {"rename-locals": "rename_locals.py", "invert-ifs": "invert_ifs.py", "misc-rewrites": "misc_rewrites.py", "extract-temps": "extract_temps.py"}[m["then"]]
+                pr = subprocess.run(["/venv/bin/python", str(VERIF / "tools" / tool), str(tmp)], capture_output=True, text=True)
+                err = None if pr.returncode == 0 else f"{tool} failed: {pr.stderr[-200:]}"
         elif m.get("transform") in ("rename-locals", "invert-ifs", "misc-rewrites", "extract-temps"):
             # behaviour-preserving whole-tree rewrites: every local renamed / every if-else inverted, re-printed
             _copy_pkg(src, tmp)
@@ -109,7 +147,10 @@ def run_variant(m: dict) -> dict:
             _copy_pkg(src, tmp)
             err = apply_edits(tmp, m)
         if err:
-            res.update(status="broken", why=err)
+            # a variant is an edit of the reference tree: when the file it edits is no longer the reference
+            # file (a later change moved or removed the anchor) the variant says nothing about the checker -
+            # inapplicable, not broken. On the reference file a missing anchor means a stale catalogue.
+            res.update(status="inapplicable" if _tree_differs(src, m) else "broken", why=err)
             return res
         env = dict(os.environ)
         env["VERIF_REPO"] = str(tmp)
@@ -155,9 +196,10 @@ def run_for(pid: str | None, jobs: int = 16) -> dict:
     ms = [m for m in catalogue() if pid is None or m["property"] == pid]
     with ThreadPoolExecutor(max_workers=jobs) as ex:
         results = list(ex.map(run_variant, ms))
-    broken = [r for r in results if r["status"] != "ok"]
+    broken = [r for r in results if r["status"] not in ("ok", "inapplicable")]
     return {
         "variants": len(results),
+        "inapplicable": [r["id"] for r in results if r["status"] == "inapplicable"],
         "mutants_fired": sum(1 for r in results if r["expect"] == "fire" and r["status"] == "ok"),
         "refactors_silent": sum(1 for r in results if r["expect"] == "silent" and r["status"] == "ok"),
         "broken": [f"{r['id']}: {r.get('why', '')}" for r in broken],
